@@ -2,11 +2,11 @@
    Part 1: id-indexed lists.  Part 2: well-formedness WF and what abs gives on
    well-formed trees.  Part 3: every body operation preserves WF and refines
    its specification; lifting along body paths; histories.  Part 4: readers.
-   Part 5: frame and shape theorems on the specification.  Part 6: what is
-   false of the faithful model (SetType, Clear, multi-literal labels).
-   Part 7: L1, the pointer level of node.go, refines the L2 list operations
-   under their preconditions. *)
-From HclV Require Import Base.Prelude Gen.TokenTypes Write.Format Write.Tree Write.TreeSpec.
+   Part 5: the frame and shape theorems of the specification (TreeSpecProofs.v)
+   transferred to the tree.  Part 6: what is false of the faithful model
+   (SetType, Clear, multi-literal labels).  The pointer level (L1) is in
+   TreeL1Proofs.v. *)
+From HclV Require Import Base.Prelude Gen.TokenTypes Write.Format Write.Tree Write.TreeSpec Write.TreeSpecProofs.
 
 (* ======================================================================== *)
 (* Part 1: id-indexed lists                                                 *)
@@ -1247,3 +1247,432 @@ Qed.
 Theorem wf_preserved ops s :
   Forall safe_op ops -> WF s -> exists s', run ops s = Ok s' /\ WF s'.
 Proof. intros So W. destruct (run_refines ops s So W) as (s' & H & W' & _). eauto. Qed.
+
+(* ======================================================================== *)
+(* Part 4: the readers agree with the specification                          *)
+(* ======================================================================== *)
+
+Lemma mem_items {A} (P : Z * A -> bool) (l : list (Z * A)) i x :
+  NoDup (ids l) -> In (i, x) l -> mem i (ids (filter P l)) = P (i, x).
+Proof.
+  intros N Hin. destruct (P (i, x)) eqn:EP.
+  - apply mem_In. eapply In_ids. apply filter_In. split; [exact Hin|exact EP].
+  - apply mem_false. intros H. unfold ids in H. apply in_map_iff in H.
+    destruct H as [[i' x'] [E H]]. simpl in E. subst i'.
+    apply filter_In in H. destruct H as [H HP].
+    assert (x' = x) by (eapply In_unique; eassumption). subst. congruence.
+Qed.
+
+Lemma attrs_of_wf done rest :
+  NoDup (ids (done ++ rest)) -> children_ok rest ->
+  attrs_of (done ++ rest) (ids (filter is_item rest)) = Ok (spec_attributes (abs_items rest)).
+Proof.
+  revert done. induction rest as [|[i it] r IH]; intros done N C; [reflexivity|].
+  apply children_ok_cons in C. destruct C as [Ci Cr].
+  assert (Ni : ~ In i (ids done)).
+  { rewrite ids_app in N. simpl in N. apply NoDup_mid_notin in N. tauto. }
+  assert (E : done ++ (i, it) :: r = (done ++ [(i, it)]) ++ r) by (rewrite <- app_assoc; reflexivity).
+  assert (IH' : attrs_of (done ++ (i, it) :: r) (ids (filter is_item r)) = Ok (spec_attributes (abs_items r))).
+  { rewrite E. apply IH; [rewrite <- E; exact N|exact Cr]. }
+  unfold spec_attributes. rewrite abs_items_cons. cbn [flat_map]. fold (spec_attributes (abs_items r)).
+  destruct it as [ts|a|k]; cbn [filter is_item snd ids map fst attrs_of abs_item].
+  - exact IH'.
+  - rewrite find_id_mid by exact Ni.
+    destruct (wf_attr_view a Ci) as (l & t & m & e & tr & EA & HN & HE & _).
+    fold (ids (filter is_item r)). rewrite HN, HE, IH', EA. reflexivity.
+  - rewrite find_id_mid by exact Ni. fold (ids (filter is_item r)). rewrite IH'.
+    destruct (wfk_view k Ci) as (l & t & ls & m & tr & EK & _). rewrite EK. reflexivity.
+Qed.
+
+Theorem attributes_agree b :
+  WFb b -> body_attributes b = Ok (spec_attributes (abs_body b)).
+Proof.
+  intros W. destruct b as [ch items limbo].
+  destruct (wfb_inv _ _ _ W) as (-> & Nd & -> & Nk & C).
+  unfold body_attributes. cbn [b_ch b_limbo b_items]. rewrite app_nil_r, abs_body_unfold.
+  apply (attrs_of_wf [] ch); assumption.
+Qed.
+
+Lemma find_abs nm l1 i a l2 :
+  children_ok (l1 ++ (i, IAttr a) :: l2) -> find_attr nm l1 = None -> attr_key a = nm ->
+  find (a_is_attr nm) (abs_items (l1 ++ (i, IAttr a) :: l2)) = Some (abs_attr a).
+Proof.
+  induction l1 as [|[j it] r IH]; intros C F K.
+  - simpl in C. apply children_ok_cons in C. destruct C as [Ca _].
+    pose proof (abs_is_attr nm (IAttr a) Ca) as E. simpl in E.
+    assert (EK : zlist_eqb (attr_key a) nm = true) by (apply zlist_eqb_eq; exact K).
+    rewrite EK in E. simpl. rewrite E. reflexivity.
+  - simpl in C. apply children_ok_cons in C. destruct C as [Ci Cr].
+    assert (F' : find_attr nm r = None /\ a_is_attr nm (abs_item it) = false).
+    { rewrite (abs_is_attr nm it Ci). destruct it as [ts|b|k]; simpl in F; auto.
+      destruct (zlist_eqb (attr_key b) nm); [discriminate|auto]. }
+    destruct F' as [F1 F2]. simpl. rewrite F2. apply IH; assumption.
+Qed.
+
+Lemma find_abs_none nm l :
+  children_ok l -> find_attr nm l = None -> find (a_is_attr nm) (abs_items l) = None.
+Proof.
+  induction l as [|[j it] r IH]; intros C F; [reflexivity|].
+  apply children_ok_cons in C. destruct C as [Ci Cr].
+  assert (F' : find_attr nm r = None /\ a_is_attr nm (abs_item it) = false).
+  { rewrite (abs_is_attr nm it Ci). destruct it as [ts|b|k]; simpl in F; auto.
+    destruct (zlist_eqb (attr_key b) nm); [discriminate|auto]. }
+  destruct F' as [F1 F2]. simpl. rewrite F2. apply IH; assumption.
+Qed.
+
+Theorem get_attribute_agrees nm b :
+  WFb b -> body_get_attribute nm b = Ok (spec_get_attribute nm (abs_body b)).
+Proof.
+  intros W. unfold body_get_attribute. rewrite body_get_attr_node_wf by exact W. cbn [bind].
+  destruct b as [ch items limbo]. cbn [b_ch].
+  destruct (wfb_inv _ _ _ W) as (-> & Nd & -> & Nk & C).
+  rewrite abs_body_unfold. unfold spec_get_attribute.
+  destruct (find_attr nm ch) as [[i a]|] eqn:F.
+  - destruct (find_attr_Some _ _ _ _ F) as (l1 & l2 & -> & K & F1).
+    rewrite (find_abs nm l1 i a l2 C F1 K).
+    assert (Wa : WF_attr a) by (apply (C i (IAttr a)); apply in_or_app; right; left; reflexivity).
+    destruct (wf_attr_view a Wa) as (l & t & m & e & tr & EA & _ & HE & _).
+    rewrite HE, EA. reflexivity.
+  - rewrite (find_abs_none nm ch C F). reflexivity.
+Qed.
+
+Theorem block_readers_agree unesc k :
+  WFk k ->
+  exists lead t ls mid bd trail,
+    abs_block k = ABlock lead t ls mid bd trail /\
+    block_type k = Ok t /\ block_labels unesc k = Ok (spec_labels unesc ls) /\
+    exists b, block_body k = Ok b /\ abs_body b = bd /\ WFb b.
+Proof.
+  intros W. destruct (wfk_view k W) as (l & t & ls & m & tr & E & HT & HL & WL & HB & Wb).
+  exists l, t, (abs_labels ls), m, (abs_body (k_bd k)), tr.
+  split; [exact E|]. split; [exact HT|]. split.
+  - unfold block_labels. rewrite HL. cbn [bind]. rewrite (wf_labels_current unesc ls WL). reflexivity.
+  - exists (k_bd k). auto.
+Qed.
+
+(* the recursive observation *)
+Fixpoint obs_blocks (F : block -> outcome (list Z * list (list Z) * bobs)) (items : list Z)
+         (l : list (Z * bitem)) : outcome (list (list Z * list (list Z) * bobs)) :=
+  match l with
+  | [] => Ok []
+  | n :: r =>
+      if mem (fst n) items then
+        match snd n with
+        | IBlock k => do o <- F k; do rest <- obs_blocks F items r; Ok (o :: rest)
+        | _ => obs_blocks F items r
+        end
+      else obs_blocks F items r
+  end.
+
+Lemma observe_unfold unesc ch items limbo :
+  observe unesc (mkBody ch items limbo)
+  = do ats <- attrs_of (ch ++ limbo) items;
+    do bls <- obs_blocks (observe_block unesc) items ch; Ok (BObs ats bls).
+Proof.
+  cbn [observe]. destruct (attrs_of (ch ++ limbo) items); cbn [bind]; try reflexivity.
+  f_equal. induction ch as [|n r IH]; [reflexivity|].
+  cbn [obs_blocks]. destruct (mem (fst n) items); [|exact IH].
+  destruct (snd n); try exact IH. rewrite IH. reflexivity.
+Qed.
+
+Lemma spec_observe_item_block unesc l t ls m bd tr :
+  spec_observe_item unesc (ABlock l t ls m bd tr) = [(bytes t, spec_labels unesc ls, spec_observe unesc bd)].
+Proof.
+  reflexivity.
+Qed.
+
+Fixpoint depth_b (b : body) : nat :=
+  match b with
+  | mkBody ch _ _ =>
+      S ((fix go (l : list (Z * bitem)) : nat :=
+            match l with [] => O | n :: r => Nat.max (depth_i (snd n)) (go r) end) ch)
+  end
+with depth_i (it : bitem) : nat :=
+  match it with IBlock k => depth_k k | _ => O end
+with depth_k (k : block) : nat :=
+  match k with mkBlock _ _ bd _ _ _ _ _ _ _ _ => S (depth_b bd) end.
+
+Lemma depth_child ch items limbo i k :
+  In (i, IBlock k) ch -> (depth_b (k_bd k) < depth_b (mkBody ch items limbo))%nat.
+Proof.
+  intros Hin. cbn [depth_b].
+  induction ch as [|n r IH]; [contradiction|].
+  destruct Hin as [->|Hin].
+  - cbn [snd depth_i]. destruct k. cbn [depth_k k_bd]. lia.
+  - specialize (IH Hin). lia.
+Qed.
+
+Theorem observe_agrees unesc : forall n b,
+  (depth_b b < n)%nat -> WFb b -> observe unesc b = Ok (spec_observe unesc (abs_body b)).
+Proof.
+  induction n as [|n IHn]; intros b D W; [lia|].
+  destruct b as [ch items limbo]. rewrite observe_unfold.
+  destruct (wfb_inv _ _ _ W) as (-> & Nd & -> & Nk & C).
+  rewrite app_nil_r. pose proof (attrs_of_wf [] ch Nd C) as HA. cbn [app] in HA. rewrite HA. cbn [bind].
+  rewrite abs_body_unfold. unfold spec_observe.
+  assert (HB : forall done rest, ch = done ++ rest ->
+             obs_blocks (observe_block unesc) (ids (filter is_item ch)) rest
+             = Ok (flat_map (spec_observe_item unesc) (abs_items rest))).
+  { intros done rest. revert done. induction rest as [|[i it] r IH]; intros done E; [reflexivity|].
+    assert (Hin : In (i, it) ch) by (rewrite E; apply in_or_app; right; left; reflexivity).
+    assert (E' : ch = (done ++ [(i, it)]) ++ r) by (rewrite <- app_assoc; exact E).
+    specialize (IH _ E').
+    cbn [obs_blocks fst snd]. rewrite (mem_items is_item ch i it Nd Hin).
+    rewrite abs_items_cons. cbn [flat_map].
+    destruct it as [ts|a|k]; cbn [is_item snd abs_item].
+    - rewrite IH. reflexivity.
+    - rewrite IH. destruct (wf_attr_view a (C _ _ Hin)) as (l & t & m & e & tr & EA & _).
+      rewrite EA. reflexivity.
+    - assert (Wk : WFk k) by exact (C _ _ Hin).
+      destruct (block_readers_agree unesc k Wk) as (l & t & ls & m & bd & tr & EK & HT & HL & b' & HB & Eb & Wb').
+      rewrite EK, spec_observe_item_block.
+      assert (D' : (depth_b (k_bd k) < n)%nat).
+      { pose proof (depth_child ch (ids (filter is_item ch)) [] i k Hin). lia. }
+      inversion Wk as [lead iT t0 iL l0 mid bid bd0 post h1 h4 h6 Hl Fl N WL H1 H4 H6 Wb0]. subst k.
+      cbn [observe_block]. rewrite HT, HL. cbn [bind]. rewrite Z.eqb_refl.
+      unfold block_body in HB. cbn [k_hbody k_bid k_bd] in *. rewrite Z.eqb_refl in HB.
+      inversion HB; subst b'.
+      rewrite (IHn bd0 D' Wb0). cbn [bind]. rewrite IH. cbn [bind app]. rewrite Eb. reflexivity. }
+  rewrite (HB [] ch eq_refl). reflexivity.
+Qed.
+
+(* every reader, recursively through Blocks()/Body(), answers what the
+   specification's reader answers on the abstract file *)
+Theorem readers_agree unesc s :
+  WF s -> observe unesc (root s) = Ok (spec_observe unesc (a_root (abs s))).
+Proof. intros [W _]. apply (observe_agrees unesc (S (depth_b (root s)))); [lia|exact W]. Qed.
+
+(* ---- the abstract file serialises to exactly the tree's tokens (any tree) ------------------- *)
+Lemma split_first_Some {A} (p : A -> bool) l a (x : Z * A) b :
+  split_first p l = Some (a, x, b) -> l = a ++ x :: b.
+Proof.
+  revert a. induction l as [|y r IH]; simpl; intros a H; [discriminate|].
+  destruct (p (snd y)).
+  - inversion H; subst. reflexivity.
+  - destruct (split_first p r) as [[[a' y'] b']|]; [|discriminate].
+    inversion H; subst. simpl. f_equal. apply IH. reflexivity.
+Qed.
+
+Lemma ser_abs_attr a : ser_item (abs_attr a) = attr_tokens a.
+Proof.
+  unfold abs_attr.
+  destruct (split_first is_lident (a_ch a)) as [[[pre [i x]] rest]|] eqn:E1; [|reflexivity].
+  destruct x; try reflexivity.
+  destruct (split_first is_lexpr rest) as [[[mid [j y]] post]|] eqn:E2; [|reflexivity].
+  destruct y; try reflexivity.
+  apply split_first_Some in E1. apply split_first_Some in E2. subst rest.
+  unfold attr_tokens, leaves_tokens. rewrite E1. cbn [ser_item].
+  rewrite flat_map_app. simpl. rewrite flat_map_app. simpl. reflexivity.
+Qed.
+
+Lemma body_tokens_unfold ch items limbo :
+  body_tokens (mkBody ch items limbo) = flat_map (fun n => item_tokens (snd n)) ch.
+Proof. reflexivity. Qed.
+
+Lemma ser_item_block l t ls m bd tr :
+  ser_item (ABlock l t ls m bd tr) = l ++ t :: flat_map alabel_tokens ls ++ m ++ ser bd ++ tr.
+Proof. reflexivity. Qed.
+
+Lemma abs_labels_tokens l : flat_map alabel_tokens (abs_labels l) = labels_tokens l.
+Proof.
+  unfold abs_labels, labels_tokens, leaves_tokens.
+  induction (l_ch l) as [|[i x] r IH]; [reflexivity|].
+  simpl. rewrite IH. destruct x; reflexivity.
+Qed.
+
+Theorem ser_abs_body : forall n b, (depth_b b < n)%nat -> ser (abs_body b) = body_tokens b.
+Proof.
+  induction n as [|n IHn]; intros b D; [lia|].
+  destruct b as [ch items limbo]. rewrite abs_body_unfold, body_tokens_unfold.
+  assert (H : forall i it, In (i, it) ch -> ser_item (abs_item it) = item_tokens it).
+  { intros i it Hin. destruct it as [ts|a|k]; cbn [abs_item item_tokens].
+    - reflexivity.
+    - apply ser_abs_attr.
+    - pose proof (depth_child ch items limbo i k Hin) as D'.
+      destruct k as [pre bid bd post h1 h2 h3 h4 h5 h6 lb]. cbn [k_bd] in D'.
+      assert (IH : ser (abs_body bd) = body_tokens bd) by (apply IHn; lia).
+      cbn [abs_block block_tokens].
+      destruct (split_first is_kident pre) as [[[lead [j x]] rest]|] eqn:E1; [|reflexivity].
+      destruct x as [x|x]; try reflexivity. destruct x; try reflexivity.
+      destruct rest as [|[j2 y] mid]; try reflexivity. destruct y as [y|y]; try reflexivity.
+      apply split_first_Some in E1. rewrite E1. rewrite ser_item_block, IH, abs_labels_tokens.
+      unfold kleaves_tokens. rewrite flat_map_app. simpl.
+      repeat (rewrite <- app_assoc || rewrite <- app_comm_cons). reflexivity. }
+  clear D. unfold ser, abs_items. induction ch as [|[i it] r IH]; [reflexivity|].
+  simpl. rewrite (H i it) by (left; reflexivity). rewrite IH; [reflexivity|].
+  intros j x Hin. apply (H j x). right. exact Hin.
+Qed.
+
+(* BuildTokens of the file = serialisation of its abstraction, for EVERY tree *)
+Theorem tokens_are_ser s : file_tokens s = aser (abs s).
+Proof.
+  unfold file_tokens, aser, abs. simpl.
+  rewrite (ser_abs_body (S (depth_b (root s)))) by lia. reflexivity.
+Qed.
+
+(* ======================================================================== *)
+(* Part 5: frame and shape, on the tree                                      *)
+(* ======================================================================== *)
+
+(* untouched_preserved: one safe step from a well-formed tree changes nothing
+   outside the addressed body and at most one item inside it (see
+   TreeSpecProofs.spec_frame for the exact relation); stated on the abstraction,
+   which by tokens_are_ser is the token stream of the file *)
+Theorem untouched_preserved o s :
+  safe_op o -> WF s ->
+  exists s', step o s = Ok s' /\
+    f_pre s' = f_pre s /\ f_post s' = f_post s /\
+    (abs_body (root s') = abs_body (root s) \/
+     edits_at (local_rel o) (op_path o) (abs_body (root s)) (abs_body (root s'))).
+Proof.
+  intros So W. destruct (step_refines o s So W) as (s' & H & _ & E).
+  exists s'. split; [exact H|].
+  destruct (spec_frame o (abs s)) as (F1 & F2 & F3). rewrite <- E in F1, F2, F3.
+  split; [exact F1|]. split; [exact F2|]. exact F3.
+Qed.
+
+(* the same at token level: the tokens before and after the addressed body are
+   the same tokens, and inside it the relation of the operation holds *)
+Corollary untouched_tokens o s :
+  safe_op o -> WF s ->
+  exists s', step o s = Ok s' /\
+    (body_tokens (root s') = body_tokens (root s) \/
+     exists pre post b b', local_rel o b b' /\
+       body_tokens (root s) = pre ++ ser b ++ post /\
+       body_tokens (root s') = pre ++ ser b' ++ post).
+Proof.
+  intros So W. destruct (untouched_preserved o s So W) as (s' & H & _ & _ & [E|E]).
+  - exists s'. split; [exact H|]. left.
+    rewrite <- (ser_abs_body (S (depth_b (root s')))) by lia.
+    rewrite <- (ser_abs_body (S (depth_b (root s)))) by lia. rewrite E. reflexivity.
+  - exists s'. split; [exact H|]. right.
+    destruct (edits_at_tokens _ _ _ _ E) as (pre & post & b & b' & HR & E1 & E2).
+    exists pre, post, b, b'. split; [exact HR|].
+    rewrite (ser_abs_body (S (depth_b (root s)))) in E1 by lia.
+    rewrite (ser_abs_body (S (depth_b (root s')))) in E2 by lia. auto.
+Qed.
+
+(* output_shape: for every history of safe operations whose arguments are
+   acceptable (expression tokens satisfy ExprOK, labels are quoted, raw tokens
+   are blank lines/comments), starting from a well-formed tree whose items have
+   the body-grammar shape (e.g. the empty file), the tokens of the body are in
+   the body grammar GBody *)
+Theorem output_shape (ExprOK : list tok -> Prop) ops s :
+  WF s -> ashaped ExprOK (abs s) ->
+  Forall safe_op ops -> Forall (op_ok ExprOK) ops ->
+  exists s', run ops s = Ok s' /\ GBody ExprOK (body_tokens (root s')).
+Proof.
+  intros W Sh So Ok. destruct (run_refines ops s So W) as (s' & H & _ & E).
+  exists s'. split; [exact H|].
+  pose proof (spec_run_shaped ExprOK ops (abs s) Ok Sh) as [Fr _]. rewrite <- E in Fr.
+  apply shaped_in_grammar in Fr. unfold abs in Fr. cbn [a_root] in Fr.
+  rewrite (ser_abs_body (S (depth_b (root s')))) in Fr by lia. exact Fr.
+Qed.
+
+Definition empty_state : state := mkState [] (mkBody [] [] []) [] [].
+
+Lemma empty_wf : WF empty_state.
+Proof.
+  split; [|constructor]. apply (wfb_build []); try constructor. intros ? ? [].
+Qed.
+
+Lemma empty_shaped ExprOK : ashaped ExprOK (abs empty_state).
+Proof. split; constructor. Qed.
+
+(* ======================================================================== *)
+(* Part 6: what is false of the faithful model                               *)
+(* ======================================================================== *)
+Definition nm_a : list Z := [97].
+Definition nm_b : list Z := [98].
+Definition nm_c : list Z := [99].
+Definition one_tok : list tok := [mkTok TokenNumberLit [49] 1 0].
+Definition two_tok : list tok := [mkTok TokenNumberLit [50] 1 0].
+
+(* Block.SetType discards the node returned by ReplaceWith.  History
+   AppendNewBlock("a", []) ; SetType("b") from the empty file: no panic yet and
+   the FILE is right (abs = specification), but the tree is no longer
+   well-formed (typeName points at a detached node), the reader Type() still
+   answers "a" where the specification — and the file — say "b", and a second
+   SetType panics ("can't replace node that is not in a list"). *)
+Definition settype_history : list op := [OAppendNewBlock [] nm_a []; OSetType [] 0 nm_b].
+
+Theorem settype_refuted :
+  exists s2,
+    run settype_history empty_state = Ok s2 /\
+    abs s2 = spec_run settype_history (abs empty_state) /\
+    ~ WF s2 /\
+    (forall unesc, observe unesc (root s2) <> Ok (spec_observe unesc (a_root (abs s2)))) /\
+    (forall unesc, observe unesc (root s2) = Ok (BObs [] [(nm_a, [], BObs [] [])])) /\
+    (forall unesc, spec_observe unesc (a_root (abs s2)) = BObs [] [(nm_b, [], BObs [] [])]) /\
+    step (OSetType [] 0 nm_c) s2 = Panic.
+Proof.
+  eexists. split; [vm_compute; reflexivity|].
+  split; [vm_compute; reflexivity|].
+  split.
+  { intros [W _]. apply wfb_inv in W. destruct W as (_ & _ & _ & _ & C).
+    specialize (C 1 _ (or_introl eq_refl)). simpl in C. inversion C. }
+  split; [intros unesc; vm_compute; discriminate|].
+  split; [intros unesc; vm_compute; reflexivity|].
+  split; [intros unesc; vm_compute; reflexivity|].
+  vm_compute. reflexivity.
+Qed.
+
+(* Body.Clear empties the child list but not the item set.  History
+   SetAttribute("a", 1) ; Clear() ; SetAttribute("a", 2): after Clear the file is
+   empty but Attributes() still lists "a"; the third call then finds the orphaned
+   attribute through items and edits it, so the edit is lost: the file stays
+   empty where the specification says `a = 2`. *)
+Definition clear_history : list op := [OSetAttr [] nm_a one_tok; OClear []; OSetAttr [] nm_a two_tok].
+
+Theorem clear_refuted :
+  exists s2 s3,
+    run (firstn 2 clear_history) empty_state = Ok s2 /\
+    abs s2 = spec_run (firstn 2 clear_history) (abs empty_state) /\
+    ~ WF s2 /\
+    body_attributes (root s2) = Ok [(nm_a, one_tok)] /\ spec_attributes (a_root (abs s2)) = [] /\
+    run clear_history empty_state = Ok s3 /\
+    file_tokens s3 = [] /\
+    aser (spec_run clear_history (abs empty_state)) <> [] /\
+    abs s3 <> spec_run clear_history (abs empty_state).
+Proof.
+  eexists. eexists. split; [vm_compute; reflexivity|].
+  split; [vm_compute; reflexivity|].
+  split.
+  { intros [W _]. apply wfb_inv in W. destruct W as (L & _). discriminate L. }
+  split; [vm_compute; reflexivity|].
+  split; [vm_compute; reflexivity|].
+  split; [vm_compute; reflexivity|].
+  split; [vm_compute; reflexivity|].
+  split; [vm_compute; discriminate|].
+  vm_compute. discriminate.
+Qed.
+
+(* A quoted label that the lexer splits into several QuotedLit tokens ("a$b"
+   lexes as  a , $ , b ) is a well-formed label node of a loaded file, and is in
+   the serialisation, but blockLabels.Current() drops it, whatever the literal
+   decoder answers. *)
+Definition split_label : list tok :=
+  [ mkTok TokenOQuote [34] 1 1; mkTok TokenQuotedLit [97] 1 0; mkTok TokenQuotedLit [36] 1 0;
+    mkTok TokenQuotedLit [98] 1 0; mkTok TokenCQuote [34] 1 0 ].
+
+Theorem labels_reader_refuted :
+  exists l,
+    WF_labels l /\ abs_labels l = [ALQuoted split_label] /\ quoted_ok split_label /\
+    forall unesc, labels_current unesc l = [].
+Proof.
+  exists (mkLabels [(1, LQuoted split_label)] [1]).
+  split; [split; [repeat constructor; simpl; tauto|reflexivity]|].
+  split; [reflexivity|].
+  split; [exists (mkTok TokenOQuote [34] 1 1), [mkTok TokenQuotedLit [97] 1 0; mkTok TokenQuotedLit [36] 1 0; mkTok TokenQuotedLit [98] 1 0], (mkTok TokenCQuote [34] 1 0); auto|].
+  intros unesc. reflexivity.
+Qed.
+
+(* ... whereas the labels written by the API (one literal token each) are read
+   back as the literal decoder decodes them *)
+Theorem labels_api_read unesc o q c :
+  ty o = TokenOQuote -> ty q = TokenQuotedLit -> ty c = TokenCQuote ->
+  labels_current unesc (labels_replace [[o; q; c]]) = opt_to_list (unesc (bytes q)).
+Proof.
+  intros Ho Hq Hc. unfold labels_current, labels_replace. simpl.
+  unfold is. rewrite Ho, Hq, Hc. simpl. rewrite app_nil_r. reflexivity.
+Qed.
